@@ -27,6 +27,8 @@ func main() {
 		runC02(os.Args[1])
 	case "count":
 		countMode()
+	case "sites": // debugging: codec sites <target> <seed index>
+		debugSites(os.Args[2], os.Args[3])
 	case "case": // debugging: codec case <target> <hex>
 		replayC02("C02", caseReplay{Target: os.Args[2], Kind: "builtin", Hex: os.Args[3], Desc: "manual"})
 	default:
